@@ -105,6 +105,16 @@ impl VisitMut for Rw {
             *p = np;
             return;
         }
+        // std::collections::X  ->  ::symrt::hashmodel::X   (hash collections: contract model with arbitrary iteration order)
+        if p.segments.len() >= 3 && p.segments[0].ident == "std" && p.segments[1].ident == "collections" {
+            let rest: Vec<syn::PathSegment> = p.segments.iter().skip(2).cloned().collect();
+            let mut np: syn::Path = parse_quote!(::symrt::hashmodel);
+            for s in rest {
+                np.segments.push(s);
+            }
+            *p = np;
+            return;
+        }
         if p.leading_colon.is_none() && !p.segments.is_empty() && p.segments[0].ident == "f32" {
             let rest: Vec<syn::PathSegment> = p.segments.iter().skip(1).cloned().collect();
             let mut np: syn::Path = parse_quote!(::symrt::Sf32);
@@ -148,6 +158,33 @@ impl VisitMut for Rw {
                 }
             }
         }
+    }
+
+    fn visit_item_use_mut(&mut self, u: &mut syn::ItemUse) {
+        // use std::collections::…  ->  use ::symrt::hashmodel::…
+        if let syn::UseTree::Path(p) = &u.tree {
+            if p.ident == "std" {
+                if let syn::UseTree::Path(q) = &*p.tree {
+                    if q.ident == "collections" {
+                        let inner = &q.tree;
+                        let attrs = &u.attrs;
+                        let vis = &u.vis;
+                        *u = parse_quote!(#(#attrs)* #vis use ::symrt::hashmodel::#inner;);
+                        return;
+                    }
+                }
+                if let syn::UseTree::Group(g) = &*p.tree {
+                    for t in g.items.iter() {
+                        if let syn::UseTree::Path(q) = t {
+                            if q.ident == "collections" {
+                                panic!("symgen: `use std::{{collections::…, …}}` groups are not rewritten; write the collections import on its own line");
+                            }
+                        }
+                    }
+                }
+            }
+        }
+        visit_mut::visit_item_use_mut(self, u);
     }
 
     fn visit_macro_mut(&mut self, m: &mut Macro) {
